@@ -115,7 +115,16 @@ def _kind_of(tree, n):
 # ---------------------------------------------------------------------------------------------------------
 # spec -> code: replay one predicted behaviour in the calling thread
 
+def clean_stack(B, rep):
+    """A context leaked by an earlier (already reported) case must not cascade into the following ones."""
+    st = B.ag_ctx._control_ctx()
+    if len(st) != 1:
+        del st[1:]
+        rep.add('stack_resets_after_leak')
+
+
 def replay_case(B, case, rep, origin):
+    clean_stack(B, rep)
     log = B.Log()
     drv = any(e[0] == 0 and e[1] == 'raise' for e in case['log'])
     esc = B.run_tree(case['tree'], log, drv)
@@ -280,7 +289,7 @@ def run(rep):
     rep.add_tlc(res)
 
     # --- design level: two threads interleaved, all invariants + Isolation
-    design = [(2, 2, 2, 'KindsTiny')] if quick else [(2, 2, 2, 'KindsSmall'), (3, 2, 3, 'KindsTiny'), (4, 1, 4, 'KindsTiny')]
+    design = [(2, 1, 2, 'KindsTiny')] if quick else [(2, 2, 2, 'KindsSmall'), (3, 2, 3, 'KindsTiny'), (4, 1, 4, 'KindsTiny')]
     for (d, w, n, ks) in design:
         res = tlc.run_tlc('CtxStack', _cfg([1, 2], d, w, n, ks, False), workers=W, timeout=1500,
                           name='CtxStack_2t').require_ok('CtxStack two threads %s' % ((d, w, n, ks),))
@@ -289,13 +298,13 @@ def run(rep):
 
     # --- spec -> code, exhaustive (BFS) single-thread behaviours
     if quick:
-        bfs = [(2, 2, 2, 'KindsCore', 1), (3, 2, 3, 'KindsSmall', 1)]
+        bfs = [(2, 2, 2, 'KindsCore', 1), (3, 2, 3, 'KindsTiny', 1)]
     else:
-        bfs = [(3, 2, 3, 'KindsCore', 12), (4, 2, 4, 'KindsTiny', 2), (4, 1, 4, 'KindsSmall', 1)]
+        bfs = [(3, 2, 3, 'KindsCore', 12), (4, 2, 4, 'KindsTiny', 4), (4, 1, 4, 'KindsSmall', 6)]
     pool = []
     for (d, w, n, ks, nparts) in bfs:
         for part in range(nparts):
-            res = tlc.run_tlc('CtxStack', _cfg([1], d, w, n, ks, True, nparts, part, expect=True), workers=W,
+            res = tlc.run_tlc('CtxStack', _cfg([1], d, w, n, ks, True, nparts, part, expect=True), workers=8,
                               timeout=1500, name='CtxStack_bfs').require_ok('CtxStack BFS %s' % ((d, w, n, ks, part),))
             rep.add_tlc(res)
             cases = [c for c in res.json if isinstance(c, dict) and 'tree' in c]
@@ -338,6 +347,7 @@ def run(rep):
         for t, c in enumerate(picks):
             order += [t + 1] * len(c['log'])
         rng.shuffle(order)
+        clean_stack(B, rep)
         logs, esc, div = run_threads(B, trees, order)
         rid = 'sched-%d' % i
         runs.append(make_run(rid, logs, esc))
@@ -352,6 +362,7 @@ def run(rep):
     for i in range(nstress):
         nt = rng.choice([1, 2, 3, 4, 6, 8, 12, 16])
         trees = [random_tree(rng, kinds, rng.choice([3, 4, 4, 5] if quick else [3, 4, 5, 6]), 3, 24) for _ in range(nt)]
+        clean_stack(B, rep)
         logs, esc, _ = run_threads(B, trees, None)
         rid = 'stress-%d' % i
         runs.append(make_run(rid, logs, esc))
